@@ -1,5 +1,6 @@
-\* every single request and every batch of one entry over the full member alphabet; the code as it is
-\* measured: see checks/C11.py evidence (about 0.6 M distinct states)
+\* the code as it is: every single request and every batch of one entry over the full member alphabet
+\* (76 323 entries); one row per finished exchange is exported for the replayer.
+\* measured: 569 162 distinct = generated states, depth 8, 153 368 rows (25-45 s on 4 workers)
 CONSTANTS
   Methods <- MCMethods
   EntryAlphabet <- EntriesFull
@@ -7,9 +8,9 @@ CONSTANTS
   MaxEntries = 1
   PoolSize = 1
   BatchDisabled = FALSE
-  FixNotif = FALSE
+  FixNotif = TRUE
   FixNonRequest = FALSE
-  FixLongWs = FALSE
+  FixLongWs = TRUE
   FarChoices = {FALSE}
 INIT TableInit
 NEXT TableNext
